@@ -87,6 +87,9 @@ class _FilAddrUtils:
 
         # Validate and remove prefix
         addr_no_prefix = AddrDecUtils.ValidateAndRemovePrefix(addr, CoinsConf.Filecoin.ParamByKey("addr_prefix"))
+        # The address type character shall be present and Filecoin addresses are not padded
+        if len(addr_no_prefix) == 0 or "=" in addr_no_prefix:
+            raise ValueError("Invalid address (empty payload or padding characters)")
         # Check address type
         addr_type_got = ord(addr_no_prefix[0]) - ord("0")
         if addr_type != addr_type_got:
